@@ -852,6 +852,89 @@ volatile int g_exit_code = 0;
 volatile sig_atomic_t g_in_run = 0;
 }
 
+// ---------------------------------------------------------- freed-memory seam
+// While sbeppc runs, every block released through operator delete is filled with 0xDD and
+// parked in a bounded quarantine instead of going back to the allocator, so that a dangling
+// std::string / string_view read later in the same run yields a recognisable pattern rather
+// than whatever the allocator put there (the quick tier has no ASan build). Blocks above
+// 1 MiB go straight back: they are unmapped, and a dangling read of them faults.
+#if !defined(__SANITIZE_ADDRESS__)
+#include <malloc.h>
+namespace quarantine
+{
+struct Entry
+{
+    void* p;
+    std::size_t n;
+};
+constexpr std::size_t kSlots = 1u << 16, kCapBytes = 48u << 20;
+Entry ring[kSlots];
+std::size_t head = 0, count = 0, bytes = 0;
+volatile int on = 0;
+void pop()
+{
+    Entry e = ring[head];
+    head = (head + 1) % kSlots;
+    count--;
+    bytes -= e.n;
+    free(e.p);
+}
+void drain()
+{
+    while(count) pop();
+}
+void release(void* p)
+{
+    if(!p) return;
+    if(!on)
+    {
+        free(p);
+        return;
+    }
+    std::size_t n = malloc_usable_size(p);
+    if(n > (1u << 20))
+    {
+        free(p);
+        return;
+    }
+    memset(p, 0xDD, n);
+    while(count == kSlots || (count && bytes + n > kCapBytes)) pop();
+    ring[(head + count) % kSlots] = {p, n};
+    count++;
+    bytes += n;
+}
+} // namespace quarantine
+// fresh blocks are filled with 0xCD while sbeppc runs: heap bytes printed or written before anything
+// was stored in them show up as that pattern
+void* operator new(std::size_t n)
+{
+    for(;;)
+    {
+        void* p = malloc(n ? n : 1);
+        if(p)
+        {
+            if(quarantine::on && n <= (1u << 20)) memset(p, 0xCD, n);
+            return p;
+        }
+        std::new_handler h = std::get_new_handler();
+        if(!h) throw std::bad_alloc();
+        h();
+    }
+}
+void* operator new[](std::size_t n) { return operator new(n); }
+void operator delete(void* p) noexcept { quarantine::release(p); }
+void operator delete[](void* p) noexcept { quarantine::release(p); }
+void operator delete(void* p, std::size_t) noexcept { quarantine::release(p); }
+void operator delete[](void* p, std::size_t) noexcept { quarantine::release(p); }
+void operator delete(void* p, std::align_val_t) noexcept { quarantine::release(p); }
+void operator delete[](void* p, std::align_val_t) noexcept { quarantine::release(p); }
+void operator delete(void* p, std::size_t, std::align_val_t) noexcept { quarantine::release(p); }
+void operator delete[](void* p, std::size_t, std::align_val_t) noexcept { quarantine::release(p); }
+#define QUARANTINE(x) quarantine::x
+#else
+#define QUARANTINE(x) (void)0
+#endif
+
 extern "C" void exit(int code)
 {
     init_real();
@@ -928,6 +1011,9 @@ void set_budget_ms(long ms)
     setitimer(ITIMER_VIRTUAL, &it, nullptr);
 }
 
+const char kFreedPattern[] = "\xDD\xDD\xDD\xDD\xDD\xDD\xDD\xDD";
+const char kFreshPattern[] = "\xCD\xCD\xCD\xCD\xCD\xCD\xCD\xCD";
+
 // The call into real code. Everything around it is simulator.
 RunOutcome run_sbeppc(const std::vector<std::string>& args, const std::vector<FaultSpec>& faults, long yank_at, long diskfull)
 {
@@ -964,6 +1050,7 @@ RunOutcome run_sbeppc(const std::vector<std::string>& args, const std::vector<Fa
     for(auto& kv : g.fs) kv.second.created_by_run = false;
     g.active = true;
     set_budget_ms(20000);
+    QUARANTINE(on = 1);
     if(sigsetjmp(g_exit_jb, 1) == 0)
     {
         g_in_run = 1;
@@ -992,6 +1079,8 @@ RunOutcome run_sbeppc(const std::vector<std::string>& args, const std::vector<Fa
         ro.rc = g_exit_code; // std::exit() from --help / --version
     }
     set_budget_ms(0);
+    QUARANTINE(on = 0);
+    QUARANTINE(drain());
     g.active = false;
     // files sbeppc left open (it jumped out through exit): drop them
     for(auto& kv : g.open) syscall(SYS_close, kv.first);
@@ -1395,13 +1484,15 @@ void apply_mutation(const Op& op)
             std::vector<size_t> nums;
             for(size_t k = 0; k < attrs.size(); k++)
             {
-                bool dig = attrs[k].val_e > attrs[k].val_b;
-                for(size_t j = attrs[k].val_b; j < attrs[k].val_e; j++)
+                size_t vb = attrs[k].val_b;
+                if(vb < attrs[k].val_e && (d[vb] == '-' || d[vb] == '+')) vb++; // signed literals are numbers too
+                bool dig = attrs[k].val_e > vb;
+                for(size_t j = vb; j < attrs[k].val_e; j++)
                     if(!std::isdigit((unsigned char)d[j])) dig = false;
                 if(dig) nums.push_back(k);
             }
             if(nums.empty()) return;
-            static const char* ext[] = {"0", "-1", "255", "256", "65535", "65536", "2147483647", "2147483648", "4294967295", "4294967296", "9223372036854775807", "9223372036854775808", "18446744073709551615", "18446744073709551616", "99999999999999999999999999999999", "1e400", "0x10", "+5", " 7", "7 ", ""};
+            static const char* ext[] = {"0", "-1", "255", "256", "65535", "65536", "2147483647", "2147483648", "4294967295", "4294967296", "9223372036854775807", "9223372036854775808", "18446744073709551615", "18446744073709551616", "99999999999999999999999999999999", "1e400", "0x10", "+5", " 7", "7 ", "", "+0", "-0", "+1", "+18446744073709551615", "-129", "-32769", "-2147483649", "-9223372036854775808", "-9223372036854775809", "+", "-", "1-", "--1", "1.0", "00000000000000000000001"};
             const Attr& a = attrs[nums[(size_t)(op.uarg(0) % nums.size())]];
             d.replace(a.val_b, a.val_e - a.val_b, ext[op.uarg(1) % (sizeof(ext) / sizeof(ext[0]))]);
         }
@@ -1458,7 +1549,7 @@ void apply_mutation(const Op& op)
         }
         if(texts.empty()) return;
         auto t = texts[(size_t)(op.uarg(0) % texts.size())];
-        static const char* repl[] = {"", " ", "0", "-1", "255", "65536", "4294967296", "18446744073709551616", "A", "AB", "\t", "1e9", "NaN", "0x1"};
+        static const char* repl[] = {"", " ", "0", "-1", "255", "65536", "4294967296", "18446744073709551616", "A", "AB", "\t", "1e9", "NaN", "0x1", "+1", "+0", "-0", "+", "-", "+18446744073709551615", "-9223372036854775809", " 1", "1 ", "1.0", "+A"};
         d.replace(t.first, t.second - t.first, n == "textdel" ? "" : repl[op.uarg(1) % (sizeof(repl) / sizeof(repl[0]))]);
     }
     else if(n == "linedup" || n == "lineswap" || n == "linedel")
@@ -1972,6 +2063,40 @@ Result exec_plan(const Plan& plan)
             {
                 fail("nonzero-without-diagnostic", "non-zero exit status but no diagnostic line" + ctx);
                 break;
+            }
+            if(!is_c20)
+            {
+                // undefined behaviour made visible by the freed-memory seam: the fill pattern of released
+                // blocks shows up in what sbeppc printed or wrote (and no input file contains it)
+                for(int which = 0; which < 2 && !res.violation; which++)
+                {
+                    const std::string pat(which ? kFreshPattern : kFreedPattern, 8);
+                    bool in_input = false, hit = ro.out.find(pat) != std::string::npos;
+                    std::string where = "its diagnostics";
+                    for(auto& kv : g.fs)
+                    {
+                        if(kv.second.dir) continue;
+                        const bool input = kv.first.rfind("/sim/in/", 0) == 0;
+                        if(kv.second.data.find(pat) == std::string::npos) continue;
+                        auto b = before.find(kv.first);
+                        if(input || (b != before.end() && b->second.find(pat) != std::string::npos))
+                            in_input = true;
+                        else
+                        {
+                            hit = true;
+                            where = kv.first;
+                        }
+                    }
+                    if(hit && !in_input)
+                    {
+                        if(which)
+                            fail("UB:uninitialised-memory-in-output", "bytes of a fresh heap block that nothing was stored in (fill pattern 0xCD of the heap seam) appear in " + where + ctx);
+                        else
+                            fail("UB:freed-memory-in-output", "bytes of a block that had already been released (fill pattern 0xDD of the freed-memory seam) appear in " + where + ": use after free" + ctx);
+                    }
+                }
+                sim::stats().count("probe.heap_patterns_scanned");
+                if(res.violation) break;
             }
             if(is_c20)
             {
